@@ -196,7 +196,9 @@ def family():
   n = 0
   for nest in (False, True):
     for i1, in1 in enumerate(inline_sets):
-      for i2 in range(-1, len(inline_sets)):
+      # under the extra (timed) div the second paragraph is limited to the two smallest inline sets: one more symbolic
+      # time multiplies the orderings, and the larger sets did not finish within the thorough budget
+      for i2 in range(-1, 2 if nest else len(inline_sets)):
         import copy
         ps = [["p", "b e r?", copy.deepcopy(in1)]]
         if i2 >= 0:
